@@ -108,7 +108,7 @@ private theorem dq_array_exact (env : Env) (opts : Opts) (names : List Str) (p :
     fullExpand env opts names [.dq [.base (.param p)]] = some vals := by
   have hf : (basicExpand env [.dq [.base (.param p)]]).fields = vals.map fun v => [Piece.unsplit v] := by
     simp only [basicExpand, List.map_cons, List.map_nil, coalesce_single, expandWP, expandA1, expandA0, hp, expandDQ,
-      List.foldl_cons, List.foldl_nil, dqStep_array_nil]
+      List.foldl_cons, List.foldl_nil, dqStep_array_nil, dropNullAt_array]
     simp
   have := split_glob_unsplit env.ifsStr opts names (basicExpand env [.dq [.base (.param p)]])
     (by rw [hf]; exact at_fields vals)
